@@ -1447,13 +1447,7 @@ func opcodeLShift(op *ParsedOpcode, t *thread) error {
 		return err
 	}
 
-	l := len(x)
-	for i := 0; i < l-1; i++ {
-		x[i] = x[i]<<n | x[i+1]>>(8-n)
-	}
-	x[l-1] <<= n
-
-	t.dstack.PushByteArray(x)
+	t.dstack.PushByteArray(shiftLeft(x, n))
 	return nil
 }
 
@@ -1473,14 +1467,45 @@ func opcodeRShift(op *ParsedOpcode, t *thread) error {
 		return err
 	}
 
-	l := len(x)
-	for i := l - 1; i > 0; i-- {
-		x[i] = x[i]>>n | x[i-1]<<(8-n)
-	}
-	x[0] >>= n
-
-	t.dstack.PushByteArray(x)
+	t.dstack.PushByteArray(shiftRight(x, n))
 	return nil
+}
+
+// shiftLeft returns x, read as one big-endian bit string, shifted left by n >= 0
+// bits. The result is a new slice of the same length (the operand may be shared
+// with other stack items or with the script itself and is left untouched); bits
+// shifted out are dropped and zeros are shifted in.
+func shiftLeft(x []byte, n int) []byte {
+	bitShift := uint(n % 8)
+	byteShift := n / 8
+	result := make([]byte, len(x))
+	for i := len(x) - 1; i >= 0; i-- {
+		k := i - byteShift
+		if k >= 0 {
+			result[k] |= x[i] << bitShift
+		}
+		if k-1 >= 0 {
+			result[k-1] |= x[i] >> (8 - bitShift)
+		}
+	}
+	return result
+}
+
+// shiftRight is the right-shifting counterpart of shiftLeft.
+func shiftRight(x []byte, n int) []byte {
+	bitShift := uint(n % 8)
+	byteShift := n / 8
+	result := make([]byte, len(x))
+	for i := 0; i < len(x); i++ {
+		k := i + byteShift
+		if k < len(x) {
+			result[k] |= x[i] >> bitShift
+		}
+		if k+1 < len(x) {
+			result[k+1] |= x[i] << (8 - bitShift)
+		}
+	}
+	return result
 }
 
 // opcodeBoolAnd treats the top two items on the data stack as integers.  When
